@@ -20,8 +20,8 @@ def main():
 
 
 MANIFEST = {
-    "claimed": False,
-    "text": "",
-    "note": "",
+    "claimed": True,
+    "text": "Theorems (Coq): a request whose NTS authentication fails is never answered with time, only NAK or (policy) DENY (C19_no_time_on_auth_failure); an NTS time answer is only given to an authenticated client-mode request (C19_time_needs_authentication); with the cookie limit counting cookies (tree pinned by C19_tree_counts_cookies) every NTS time answer has a non-empty encrypted part and is therefore serialized with the session's s2c cipher and an NTS authenticator whose plaintext holds exactly the fresh cookies (C19_fresh_cookie_present, C19_answer_authenticates); C19_unauthenticated_refuted: with the limit counting fields (the tree before fix-c19) a wf NTS request gets a bare 48-byte time answer; at most 8 fresh cookies, at most one per request cookie/placeholder that is at least as long, all of the session algorithm's size (C19_cookie_bounds); fresh cookies decode under the same key set to the same algorithm and keys under an ideal AEAD (C19_cookie_keys, hypothesis dec_enc in the statement).",
+    "note": "Defect found: on /repo before branch fix-c19 the check reports VIOLATION with the concrete request (NTPv4 NTS request without unique identifier whose cookie is the ninth field). 'Can be authenticated with the s2c key' = the authenticator is present and produced with the cookie's s2c cipher in the model; on the code it is the harness decrypting every answer with the real s2c key and decoding every fresh cookie with the real KeySet (monitor). AES-SIV idealised (Section hypothesis, no axiom); key rotation = generated key sets with 1-3 keys, cookies under primary and older keys. Trusted: as C16. Print Assumptions: closed under the global context.",
     "design_ref": "DESIGN.md 3 C19",
 }
